@@ -58,6 +58,22 @@ CHECKS["C20"] = {
     ],
 }
 
+REC = "./records/"
+CHECKS["C05"] = {
+    "engine": "storesched",
+    "level": "exploration",
+    "technique": "stateful property testing (rapid) under virtual time with a write-log invariant oracle + schedule-controlled interleavings of datastore calls",
+    "level_text": "Generated histories (virtual time, planted garbage, GC, restarts) and generated interleavings of concurrent Put/Get at datastore-call granularity are "
+                  "executed against the real ValueStore; the oracle is an invariant over the datastore write log (valid, correctly keyed, stamped, never downgraded, only expired "
+                  "entries deleted) plus read/put outcomes derived from it. Exploration: histories and schedules are sampled.",
+    "level_note": "Interleavings are explored at datastore calls and lock acquisitions only; the test validator is a total order on (rank, junk); the in-memory journaling "
+                  "datastore stands in for the real one; ValueStore.Put is driven with rec.Key == key as all callers do (the handler-level key check is exercised at DHT level).",
+    "parts": [
+        {"part": "history", "pkg": REC, "test": "TestVerif_C05_History", "quick": 2000, "thorough": 30000},
+        {"part": "interleave", "pkg": REC, "test": "TestVerif_C05_Interleave", "quick": 600, "thorough": 8000},
+    ],
+}
+
 MANIFEST_HEAD = {
     "version": 1,
     "setup_cmd": "bin/check --setup",
